@@ -53,6 +53,10 @@ fn observe_build(b: B) -> Value {
 		Err(p) => json!({"k": "panic", "msg": p}),
 		Ok(Err(e)) => json!({"k": "err", "msg": e.to_string()}),
 		Ok(Ok(None)) => json!({"k": "none"}),
+		// (the builder assembles bytes by hand: check that they are text at all before treating them as such)
+		Ok(Ok(Some(raw))) if std::str::from_utf8(raw.get().as_bytes()).is_err() => {
+			json!({"k": "invalid", "text": String::from_utf8_lossy(raw.get().as_bytes()), "msg": "not UTF-8"})
+		}
 		Ok(Ok(Some(raw))) => match serde_json::from_str::<Value>(raw.get()) {
 			Ok(v) => json!({"k": "some", "text": raw.get(), "value": v}),
 			Err(e) => json!({"k": "invalid", "text": raw.get(), "msg": e.to_string()}),
@@ -78,15 +82,28 @@ fn builder_case(i: usize, k: usize, c: &Value, rng: &mut rand::rngs::StdRng, out
 	let mut b = if named { B::O(ObjectParams::new()) } else { B::A(ArrayParams::new()) };
 	let mut inserted: Vec<(String, Value)> = vec![];
 	let mut had_fail = false;
+	let mut first_key: Option<String> = None;
 	let mut log = vec![];
 	let ops = c["ops"].as_array().unwrap();
 	for (n, op) in ops.iter().enumerate() {
-		let key = format!("{}#{}", gen_string(rng), n);
+		let fresh = format!("{}#{}", gen_string(rng), n);
+		// "again": the name of the history's first insert (whether or not that one succeeded)
+		let key = if op["nm"] == "again" { first_key.clone().unwrap_or(fresh) } else { fresh };
+		if first_key.is_none() {
+			first_key = Some(key.clone());
+		}
 		let r = if op["op"] == "ins" {
 			let v = gen_value(op["v"].as_str().unwrap(), rng);
-			let r = match &mut b {
+			let r = match catch(std::panic::AssertUnwindSafe(|| match &mut b {
 				B::A(a) => a.insert(&v),
 				B::O(o) => o.insert(&key, &v),
+			})) {
+				Ok(r) => r,
+				Err(p) => {
+					log.push(json!({"op": "ins", "key": key, "v": v, "panic": p}));
+					out.verdict(i, k, Some("insert:panic".into()), json!({"case": c, "log": log}));
+					return;
+				}
 			};
 			if r.is_ok() {
 				inserted.push((key.clone(), v.clone()));
@@ -112,11 +129,18 @@ fn builder_case(i: usize, k: usize, c: &Value, rng: &mut rand::rngs::StdRng, out
 	let obs = observe_build(b);
 	let exp = &c["expect"];
 	let want: Value = if named {
+		// parsed as a map: the last successfully inserted value of each name (for distinct names: every pair)
 		Value::Object(inserted.iter().cloned().collect())
 	} else {
 		Value::Array(inserted.iter().map(|(_, v)| v.clone()).collect())
 	};
-	let ctx = if had_fail { "after-failed-insert" } else { "no-failed-insert" };
+	let repeated = ops.iter().any(|o| o["nm"] == "again");
+	let ctx = match (had_fail, repeated) {
+		(true, true) => "after-failed-insert-repeated-name",
+		(true, false) => "after-failed-insert",
+		(false, true) => "repeated-name",
+		(false, false) => "no-failed-insert",
+	};
 	let bad = match (exp["k"].as_str().unwrap(), obs["k"].as_str().unwrap()) {
 		("none", "none") => None,
 		("noneOrEmpty", "none") => None,
